@@ -44,7 +44,7 @@ FLOORS = {
     "quick": {"counts": {"g1_lines_checked": 60000, "hook_invocations_checked": 100000,
                          "extrusion_amounts_checked": 50000, "rapids_checked": 700,
                          "absolute_extrusion_moves": 15000, "relative_extrusion_moves": 15000}, "keys": 20},
-    "thorough": {"counts": {"g1_lines_checked": 2500000}, "keys": 24},
+    "thorough": {"counts": {"g1_lines_checked": 2500000}, "keys": 20},
 }
 
 
